@@ -6,6 +6,7 @@ CONSTANTS
   Statuses = {200, 404, 500}
   DropPts = {0, 1, 2, 3, 4, 5}
   TmpOks = {TRUE, FALSE}
+  MoveOks = {TRUE, FALSE}
   CacheOks = {TRUE, FALSE}
   Kinds = {"sym", "file"}
   Pres = {TRUE, FALSE}
